@@ -14,6 +14,8 @@ import (
 	"container/list"
 	"context"
 	"fmt"
+	"slices"
+	"strings"
 	"sync"
 
 	"github.com/ipfs/go-cid"
@@ -191,8 +193,15 @@ func newMergeTarget() mergeTarget {
 	}
 }
 
-// loadComposites retrieves and stores into the merge processor the composite blocks for the given
-// CID until it reaches a block that has already been merged or until we reach the genesis block.
+// loadComposites stores into the merge processor the composite blocks reachable from the given CID
+// that have not been merged yet, i.e. that are neither one of the current heads (the merge target) nor
+// an ancestor of one. Each such block is stored exactly once and parents are stored before children.
+//
+// The new block and its ancestors might have branched off from a block older than the current heads,
+// the heads may be at different heights and the incoming DAG may contain diamonds. To handle all of
+// these we sweep both DAGs level by level, from the greatest height downwards, until every incoming
+// block is known to be either merged or unmerged. Heights strictly decrease along parent links, so
+// when a level is reached both work sets are complete for that level.
 func (mp *mergeProcessor) loadComposites(
 	ctx context.Context,
 	blockCid cid.Cid,
@@ -203,48 +212,85 @@ func (mp *mergeProcessor) loadComposites(
 		return nil
 	}
 
-	nd, err := mp.blockLS.Load(linking.LinkContext{Ctx: ctx}, cidlink.Link{Cid: blockCid}, coreblock.BlockSchemaPrototype)
+	block, err := mp.loadCompositeBlock(ctx, cidlink.Link{Cid: blockCid})
 	if err != nil {
 		return err
 	}
 
-	block, err := coreblock.GetFromNode(nd)
-	if err != nil {
-		return err
+	// merged holds blocks known to be merged, incoming holds blocks reachable from the new block.
+	merged := make(map[cid.Cid]*coreblock.Block, len(mt.heads))
+	for c, b := range mt.heads {
+		merged[c] = b
+	}
+	incoming := map[cid.Cid]*coreblock.Block{blockCid: block}
+	unmerged := []*coreblock.Block{}
+
+	for len(incoming) > 0 {
+		var height uint64
+		for _, b := range incoming {
+			height = max(height, b.Delta.GetPriority())
+		}
+		for _, b := range merged {
+			height = max(height, b.Delta.GetPriority())
+		}
+
+		for _, c := range cidsAtHeight(merged, height) {
+			b := merged[c]
+			delete(merged, c)
+			// an incoming block that is merged is not ours to merge, nor are its ancestors
+			delete(incoming, c)
+			for _, head := range b.Heads {
+				if _, ok := merged[head.Cid]; ok {
+					continue
+				}
+				merged[head.Cid], err = mp.loadCompositeBlock(ctx, head)
+				if err != nil {
+					return err
+				}
+			}
+		}
+
+		for _, c := range cidsAtHeight(incoming, height) {
+			b := incoming[c]
+			delete(incoming, c)
+			unmerged = append(unmerged, b)
+			for _, head := range b.Heads {
+				if _, ok := incoming[head.Cid]; ok {
+					continue
+				}
+				incoming[head.Cid], err = mp.loadCompositeBlock(ctx, head)
+				if err != nil {
+					return err
+				}
+			}
+		}
 	}
 
-	// In the simplest case, the new block or its children will link to the current head/heads (merge target)
-	// of the composite DAG. However, the new block and its children might have branched off from an older block.
-	// In this case, we also need to walk back the merge target's DAG until we reach a common block.
-	if block.Delta.GetPriority() >= mt.headHeight {
-		mp.composites.PushFront(block)
-		for _, head := range block.Heads {
-			err := mp.loadComposites(ctx, head.Cid, mt)
-			if err != nil {
-				return err
-			}
-		}
-	} else {
-		newMT := newMergeTarget()
-		for _, b := range mt.heads {
-			for _, link := range b.Heads {
-				nd, err := mp.blockLS.Load(linking.LinkContext{Ctx: ctx}, link, coreblock.BlockSchemaPrototype)
-				if err != nil {
-					return err
-				}
-
-				childBlock, err := coreblock.GetFromNode(nd)
-				if err != nil {
-					return err
-				}
-
-				newMT.heads[link.Cid] = childBlock
-				newMT.headHeight = childBlock.Delta.GetPriority()
-			}
-		}
-		return mp.loadComposites(ctx, blockCid, newMT)
+	// unmerged is in descending height, merge in ascending height
+	for _, b := range unmerged {
+		mp.composites.PushFront(b)
 	}
 	return nil
+}
+
+// cidsAtHeight returns the CIDs of the blocks with the given height, in a deterministic order.
+func cidsAtHeight(blocks map[cid.Cid]*coreblock.Block, height uint64) []cid.Cid {
+	cids := []cid.Cid{}
+	for c, b := range blocks {
+		if b.Delta.GetPriority() == height {
+			cids = append(cids, c)
+		}
+	}
+	slices.SortFunc(cids, func(a, b cid.Cid) int { return strings.Compare(a.KeyString(), b.KeyString()) })
+	return cids
+}
+
+func (mp *mergeProcessor) loadCompositeBlock(ctx context.Context, link cidlink.Link) (*coreblock.Block, error) {
+	nd, err := mp.blockLS.Load(linking.LinkContext{Ctx: ctx}, link, coreblock.BlockSchemaPrototype)
+	if err != nil {
+		return nil, err
+	}
+	return coreblock.GetFromNode(nd)
 }
 
 func (mp *mergeProcessor) mergeComposites(ctx context.Context) error {
